@@ -834,6 +834,21 @@ def run(ctx, res):
             if w.get("key") and w["key"] not in seen_keys:
                 gone.append(w["name"] + " (" + w["key"] + ")")
     res.extra["witnesses_no_longer_reproducing"] = gone
+    # regression witnesses of repaired findings: still reported under the full option set (the witness is alive) and under no
+    # option set that lacks the finding's severity / --inconclusive
+    bad = []
+    for b in wb:
+        for w in b.witnesses:
+            if not w.get("regression"):
+                continue
+            fid, sev, finc = w["finding"][0], w["finding"][1], w["finding"][2]
+            seen_full = any(f[0] == fid and f[4] == w["file"] for f in b.results.get((tuple(GATED), True), []))
+            if not seen_full:
+                bad.append("%s: [%s] is not reported under the full option set any more (dead regression witness)" % (w["name"], fid))
+            for o, fs in b.results.items():
+                if any(f[0] == fid and f[4] == w["file"] for f in fs) and ((sev in GATED and sev not in o[0]) or (finc and not o[1])):
+                    bad.append("%s: [%s] reported with enabled={%s}%s" % (w["name"], fid, ",".join(o[0]), " --inconclusive" if o[1] else ""))
+    res.oblig("C:repaired-findings-stay-gated", not bad, "correspondence", "\n".join(bad[:10]))
     # ---- tie: table vs implementation ------------------------------------------------------------------------------------
     tie_check(ctx, res, table, observations)
     if thorough:
